@@ -71,6 +71,25 @@ META = {
         rule="run = one tape: (role, negotiation, trigger kind, echo policy, number of writers/pingers, message size, Write vs Writer, pipe capacity and write chunking, firing step, schedule). Non-trivial = every run; distinct = distinct event-log SHA-256.",
         real=REAL + ["wsjson", "NetConn adapter"], stub=STUB + RAW, assumptions=COMMON_ASSUME,
     ),
+    "C06": dict(
+        level="exploration",
+        level_text="Seeded simulation of the close handshake in three scenarios - the library closing against a scripted raw peer (echo with the same code / another code / never / after 1 ms..6 s, with late data before the echo, with or without a pending reader), the raw peer closing at a message boundary before/between/after messages against a pending Reader, CloseRead or a later Read, and two real endpoints - followed by a drawn, partly concurrent program of Read/Write/Writer/Ping/Close/CloseNow on the closed connections. The status-code dimension of the library-initiated scenario is enumerated completely in the thorough tier (0..65535 plus out-of-range values, both roles) and over 36 boundary codes x 6 reason lengths in the quick tier; everything else is sampled.",
+        level_note="Close-code table written from RFC 6455 7.4 and the IANA registry (valid on the wire: 1000-1003, 1007-1014, 3000-4999); timing of Close is C09's, frame order after the Close frame is C16's.",
+        technique="deterministic simulation: scripted peer + fake clock, close state machine and code-table oracle; status codes enumerated",
+        design_ref="DESIGN.md 6 C06",
+        rule="enumerated: forced tape prefix (scenario, role, code, reason length, echo mode); random: scenario, role, code, reason, echo mode and delay, reader mode, messages before the close, compression, post-close program of 2-6 calls per actor on 1-2 actors per connection, schedule. Non-trivial = every run; distinct = distinct event-log SHA-256.",
+        exhaustive="status code (0..65535, -1, 65536, 1<<20) x role for library-initiated Close; all receivable codes x role for peer-initiated Close (thorough tier)",
+        real=REAL, stub=STUB + RAW, assumptions=COMMON_ASSUME,
+    ),
+    "C15": dict(
+        level="exploration",
+        level_text="Seeded simulation of one real endpoint with 0-6 concurrent Ping calls (own contexts of 1 s / 3 s / 30 s) against a scripted raw peer that answers the Ping frames it sees in order, reversed, shuffled, duplicated, with one or all withheld, with foreign payloads first, or 2 s late, optionally after unsolicited pongs that guess the library's payloads; in the same runs the peer sends 0-7 pings of 0..125 bytes before, between and inside fragmented (compressed) messages while the library reads with a Reader loop or CloseRead and 0-2 writers are active. History oracle over step-stamped events: the Ping calls that returned nil must be matchable to distinct ping payloads for which a pong was sent inside the call's [invoke, return] window; errors arrive within 1 s of the context's end; the pong payload sequence received equals the ping sequence sent. Sampling, not proof.",
+        level_note="Trusts the reference frame codec; a pong that arrives after a ping registered but before its frame was written counts as that ping's pong (the statement only requires that it carries the ping's payload).",
+        technique="deterministic simulation: scripted pong policies + seeded schedule, history check (bipartite matching of nil returns to ponged payloads)",
+        design_ref="DESIGN.md 6 C15",
+        rule="run = one tape: (role, negotiation, number of pings and their timeouts, pong policy, unsolicited pongs, CloseRead vs reader, inbound pings and messages with fragmentation, writers, capacities/chunking, schedule). Non-trivial = every run (at least one ping in one direction); distinct = distinct event-log SHA-256.",
+        real=REAL, stub=STUB + RAW, assumptions=COMMON_ASSUME,
+    ),
 }
 
 NOT_APPLICABLE = [
